@@ -395,11 +395,15 @@ def vErrName : VErr → String
 
 /-! ### handlers -/
 
+/-- the downstream codec of `user.Serializer` when a user was found, of the default serializer otherwise -/
+def downOf (σ : Srv) (user : Option Nat) : Nat :=
+  match user with
+  | some s => (σ.sess s).down
+  | none => 84
+
 def hPacket (cd : Codec) (domLen : Nat) (σ : Srv) (m : Msg) (uid ack : Nat) (pkt : Option (Nat × List Nat)) : Res (Srv × Ans) := do
   let (σ1, user, e) ← validate σ uid m.addr
-  let code := match user with
-    | some s => (σ1.sess s).down
-    | none => 84
+  let code := downOf σ1 user
   match user, e with
   | some s, .ok =>
     let u := σ1.sess s
@@ -447,9 +451,7 @@ def hOptions (cd : Codec) (domLen : Nat) (σ : Srv) (m : Msg) (uid : Nat) (o : O
 
 def hFragTest (cd : Codec) (domLen : Nat) (σ : Srv) (m : Msg) (uid size : Nat) : Res (Srv × Ans) := do
   let (σ1, user, e) ← validate σ uid m.addr
-  let code := match user with
-    | some s => (σ1.sess s).down
-    | none => 84
+  let code := downOf σ1 user
   match e with
   | .ok =>
     if size > SA.Gen.maxDownstreamFragmentSize then pure (σ1, errAns cd m domLen 114 1 code 1 SA.Gen.errBadFrag)
